@@ -201,10 +201,11 @@ def run(ctx):
             judge_check_decoder(ctx, {"s": t, "tag": "confusable"})
             try:
                 import btc_hd_wallet.helper as h
-                r = h.decode_base58(t)
-                ctx.judge("string_roundtrip", False, {"s": t, "tag": "confusable"}, "raise", r, cls="str|confusable", mech="C10.decode.accepted_non_alphabet")
+                h.decode_base58(t)
+                # (the property promises nothing about the RAW decoder on strings outside the alphabet: recorded, not judged)
+                ctx.extra["raw_decoder_accepted_non_alphabet"] = ctx.extra.get("raw_decoder_accepted_non_alphabet", 0) + 1
             except Exception:  # noqa
-                ctx.judge("string_roundtrip", True, {"s": t, "tag": "confusable"}, cls="str|confusable", outcome="raised")
+                ctx.extra["raw_decoder_refused_non_alphabet"] = ctx.extra.get("raw_decoder_refused_non_alphabet", 0) + 1
     # raw (non-checksummed) encodings fed to the checksummed decoder, incl. short ones
     for _ in range(ctx.scale(600, 60000)):
         ln = rnd.choice([1, 2, 3, 4, 5, 8, 25])
@@ -214,6 +215,28 @@ def run(ctx):
         s = rb58.encode(raw)
         if s:
             judge_check_decoder(ctx, {"s": s, "tag": "raw-len%d" % ln})
+    # Grid: every printable non-alphabet ASCII character (incl. the look-alikes 0 O I l) substituted for every one of the 58
+    # digit values in otherwise valid strings.  A decoder that silently maps such a character to SOME digit accepts the string
+    # in which that digit was the original one - whatever the mapping is, one of the 58 trials hits it.
+    bad_ascii = [chr(c) for c in range(32, 127) if chr(c) not in ALPH]
+    pool = []
+    for _ in range(60):
+        pool.append(rb58.encode_check(gen.rbytes(rnd, rnd.choice([21, 33, 34, 78]))))
+    for ci, c in enumerate(bad_ascii):
+        n += 1
+        if not ctx.mine(n):
+            continue
+        for d in range(58):
+            want = ALPH[d]
+            cand = [s_ for s_ in pool if want in s_[1:]]
+            if not cand:
+                continue
+            s_ = rnd.choice(cand)
+            pos = rnd.choice([i for i in range(1, len(s_)) if s_[i] == want])
+            judge_check_decoder(ctx, {"s": s_[:pos] + c + s_[pos + 1:], "tag": "grid-nonalphabet"})
+        # also at position 0 and as the only change of a '1'-prefixed string
+        s_ = rnd.choice(pool)
+        judge_check_decoder(ctx, {"s": c + s_[1:], "tag": "grid-nonalphabet-first"})
     # ALL strings of one and two alphabet characters (3422, exhaustive): every one is too short to hold a checksum
     k2 = 0
     for a in ALPH:
